@@ -120,6 +120,11 @@ def run_jobs(jobs, workers, budget_s, on_result=None, stop=None):
           results.append(res)
           if on_result:
             on_result(res)
+        if stop and stop():
+          for fut in list(pending):
+            if fut.cancel():
+              pending.discard(fut)
+              skipped += 1
         top_up()
   results.sort(key=lambda r: (r["engine"], r["profile"], str(r["label"]),
                               r["run_index"]))
